@@ -759,7 +759,7 @@ Qed.
 (* the union over two measures can return two features that are too associated *)
 Definition union_witness : tin :=
   mkTin 10 (999, 1000) (999, 1000) 1%nat
-    [mkM true false false 100 100; mkM true false false 100 100]
+    [mkM true false 100 100; mkM true false 100 100]
     [mkFeat 0 0 1 [mkRaw false false false 5; mkRaw false false false 1] [Some 5; Some 1];
      mkFeat 1 0 1 [mkRaw false false false 1; mkRaw false false false 5] [Some 1; Some 5]]
     [mkFilter 5 [[(0, false); (9, false)]; [(9, false); (0, false)]]].
@@ -969,7 +969,7 @@ Qed.
 
 (* RegressionSelector's default (distance_measure = 1 - r, `if d_corr:`): model-level witnesses *)
 Definition copy_witness : tin :=   (* one feature, exact copy of the target: r = 1, key = 1 - r^2 = 0 *)
-  mkTin 10 (999, 1000) (999, 1000) 1%nat [mkM true true false 0 0]
+  mkTin 10 (999, 1000) (999, 1000) 1%nat [mkM true true 0 0]
         [mkFeat 0 0 1 [mkRaw false false true 0] [Some 1]] [mkFilter 1 [[(0, false)]]].
 
 Theorem regression_copy_dropped :
@@ -979,7 +979,7 @@ Proof. exists copy_witness. repeat split; vm_compute; reflexivity. Qed.
 (* key = 100 - sign(r) * 100 r^2: feature 0 has r = 0.9, feature 1 has r = -0.5; negating
    feature 0 (r = -0.9) changes the order although the strengths r^2 are unchanged *)
 Definition neg_witness (k0 : Z) : tin :=
-  mkTin 10 (999, 1000) (999, 1000) 2%nat [mkM true true false 0 0]
+  mkTin 10 (999, 1000) (999, 1000) 2%nat [mkM true true 0 0]
         [mkFeat 0 0 1 [mkRaw false false false k0] [Some 81];
          mkFeat 1 0 1 [mkRaw false false false 125] [Some 25]]
         [mkFilter 100 [[(0, false); (1, false)]; [(1, false); (0, false)]]].
